@@ -85,7 +85,7 @@ class KllC08(Part):
         h = ["coins " + "".join(rng.choice("01") for _ in range(20000))]
         for s, k in enumerate(ks):
             h.append("new %d %s %d" % (s, ty, k))
-        total = rng.choice([3000, 10000, 30000] if tier == "quick" else [30000, 100000, 300000])
+        total = rng.choice([3000, 10000, 30000] if tier == "quick" else [30000, 100000])
         done = 0
         while done < total:
             s = rng.randrange(len(ks))
@@ -107,8 +107,8 @@ class KllC08(Part):
             budgets = [rng.choice([3, 5, 6, 8, 9, 10, 11, 12]) for _ in range(40)]
             nlong = 6
         else:
-            budgets = [rng.choice([6, 8, 10, 12, 12, 13, 14]) for _ in range(150)] + [15, 16]
-            nlong = 25
+            budgets = [rng.choice([6, 8, 10, 12, 12, 13]) for _ in range(80)] + [14, 15, 16]
+            nlong = 12
         for b in budgets:
             hs.append(self.tree_history(rng, b))
         for _ in range(nlong):
@@ -192,11 +192,26 @@ class KllC08(Part):
                     bad.append(("n-mismatch", "sketch %d: n=%d total=%d accepted=%d" % (sid, n, total, len(its)), i))
                     return bad
                 parsed.append(U.parse_pairs(T, words))
-            for pid in pts:
-                y = vals[pid]
-                for incl in (True, False):
-                    tot = sum(U.view_rank_num(T, ents, y, incl) for ents in parsed)
-                    true = sum(1 for a in its if (T.le(a, y) if incl else T.lt(a, y)))
+            ys = sorted((vals[pid] for pid in pts), key=T.key())
+            srt = sorted(its, key=T.key())
+            tot_incl, tot_excl = [0] * len(ys), [0] * len(ys)
+            for ents in parsed:                      # one sweep per leaf over (entries, query points), both sorted
+                pi = pe = 0
+                ci = ce = 0
+                for j, y in enumerate(ys):
+                    while pi < len(ents) and T.le(ents[pi][0], y):
+                        ci = ents[pi][1]; pi += 1
+                    while pe < len(ents) and T.lt(ents[pe][0], y):
+                        ce = ents[pe][1]; pe += 1
+                    tot_incl[j] += ci
+                    tot_excl[j] += ce
+            pi = pe = 0
+            for j, y in enumerate(ys):
+                while pi < len(srt) and T.le(srt[pi], y):
+                    pi += 1
+                while pe < len(srt) and T.lt(srt[pe], y):
+                    pe += 1
+                for incl, tot, true in ((True, tot_incl[j], pi), (False, tot_excl[j], pe)):
                     if tot != (2 ** F) * true:
                         bad.append(("rank-biased", "sketch %d y=%r %s: sum over %d leaves of weight below = %d, 2^F * true count = %d"
                                     % (sid, y, "inclusive" if incl else "exclusive", len(leaves), tot, (2 ** F) * true), i))
